@@ -563,7 +563,7 @@ class Unit:
         ctx.assume(z3.ForAll([r], z3.Implies(z3.And(r >= 0, r < R),
                                              z3.And(rk(r) >= 0, rk(r) < K,
                                                     *[U(rk(r), c) == to_z3(t.at(r, c)) for c in range(C)])),
-                             patterns=[rk(r)]))
+                             patterns=_pats([rk(r), to_z3(t.at(r, 0))], r)))
         ctx.assume(z3.ForAll([i, j], z3.Implies(z3.And(i >= 0, i < j, j < K),
                                                 z3.Or(*[U(i, c) != U(j, c) for c in range(C)])),
                              patterns=[z3.MultiPattern(U(i, 0), U(j, 0))]))
@@ -741,6 +741,16 @@ class Unit:
         self.results.append({'unit': self.name, 'label': label, 'status': 'generated', 'obls': obls, 'unsupported': [],
                              'canary': Obligation(f'{label}.canary', 'canary', list(ctx.hyps), z3.BoolVal(False)),
                              'gen_s': time.time() - t0, 'paths': 1, 'info': {}, 'trusted': list(ctx.axiom_tags)})
+
+
+def _pats(cands, var):
+    """Keep the candidate triggers that are applications containing the bound variable."""
+    out = []
+    for c in cands:
+        if z3.is_app(c) and c.num_args() > 0 and not z3.is_int_value(c) and c.decl().kind() == z3.Z3_OP_UNINTERPRETED:
+            if any(z3.eq(a, var) for a in c.children()):
+                out.append(c)
+    return out or None
 
 
 def _unique1(ctx, tf, n, dtype):
